@@ -558,10 +558,10 @@ def run_c07(ck, ctx):
         cand = [i for i in range(1, len(pk)) if len(pk[i].words) > 2 and pk[i].raw_payload is None]
         if cand and si % 2 == 1:
             i = R.choice(cand)
-            f = R.choice(['hsize', 'hsize', 'ver', 'sysid', 'prio', 'res0'])
+            f = ['hsize', 'ver', 'sysid', 'prio', 'res0'][(si // 2) % 5]       # every field once per five streams (seeded C07-m3 needs `hsize`)
             pk[i].rdh[f] = pk[i].rdh[f] ^ (1 << R.randrange(8))
             k = R.randrange(2, len(pk[i].words))
-            w = bytearray(pk[i].words[k]); w[R.randrange(9)] ^= 1 << R.randrange(8); w[9] ^= R.choice([0, 1, 0x10])
+            w = bytearray(pk[i].words[k]); w[R.randrange(9)] ^= 1 << R.randrange(8); w[9] ^= R.choice([1, 0x10])    # the identifier is damaged: a finding at this word
             if k == len(pk[i].words) - 1 and w[9] == 0xFF: w[9] = 0xFE
             pk[i].words[k] = bytes(w)
             ck.count('header_and_word_damaged_in_one_packet')
